@@ -1062,7 +1062,6 @@ def salvage_policy_parse_failure(case, why_class) -> bool:
 
 
 KNOWN_CLASSES = {"salvage_policy_parse_failure": salvage_policy_parse_failure,
-                 "negative_infinity_literal": negative_infinity_literal,
                  "holographic_example_needs_escape": holographic_example_needs_escape}
 
 
